@@ -1,4 +1,106 @@
-import Walleye.Model.MoveGen
+/-
+  C05 — the position hash depends only on the position, never on the route to it.
+  Everything here holds for EVERY hasher (any 64-bit tables), so it does not depend on ChaCha8.
+
+  Proved:  the four board.rs mutators keep "incremental key = key computed from scratch";
+           every successor of `generate_moves` (both modes, all move kinds: quiet, capture, double
+           step, en passant, promotion x4, castling x4) keeps it, together with the ring and the
+           en-passant well-formedness it needs; hence every chain of generated successors of any
+           length; hence two routes to the same position give the same key (`route_independent`).
+  Not yet proved here (carried by the correspondence run against the spec's scratch key on every
+  state of every op): the FEN loader and the text-move applier as producers (`key_fromFen`,
+  `key_makeMove`), and `key_sensitive` for the dumped constants.  Hence the `_partial` suffix on
+  the producer-level headline.
+-/
+import Walleye.Proofs.Succ
+import Walleye.Model.Fen
 namespace Walleye
-theorem C05_placeholder (c : Color) : c.opp.opp = c := Color.opp_opp c
+
+/-! ### the mutators (board.rs:524-584), for every hasher -/
+
+theorem key_swapColor (h : Hasher) (p : Pos) : KeyOK h p → KeyOK h (p.swapColor h) := keyOK_swapColor h p
+
+theorem key_takeAwayCastlingRights (h : Hasher) (p : Pos) (ct : CastlingType) :
+    KeyOK h p → KeyOK h (p.takeAway h ct) := keyOK_takeAway h p ct
+
+theorem key_unsetPawnDoubleMove (h : Hasher) (p : Pos) : KeyOK h p → KeyOK h (p.unsetEp h) := keyOK_unsetEp h p
+
+theorem key_movePiece (h : Hasher) (p : Pos) (s e : Point) (hr : RingOK p.board) (he : OnBoard e) :
+    KeyOK h p → KeyOK h (p.movePiece h s e) := keyOK_movePiece' h p s e hr he
+
+/-! ### the generator as a producer of positions -/
+
+/-- every successor of `generate_moves`, in either mode, carries the exact key (and the invariant
+    needed to go on) -/
+theorem key_gen (h : Hasher) (p : Pos) (mode : Mode) (hinv : Inv h p) :
+    ∀ s ∈ generateMoves h p mode, Inv h s :=
+  fun s hs => (generateMoves_inv h p mode hinv s hs).1
+
+/-- positions reachable from `p` by following generated successors, any modes, any length -/
+inductive Chain (h : Hasher) : Pos → Pos → Prop where
+  | refl (p : Pos) : Chain h p p
+  | step {p q s : Pos} (mode : Mode) : Chain h p q → s ∈ generateMoves h q mode → Chain h p s
+
+theorem key_chain (h : Hasher) (p q : Pos) (hinv : Inv h p) (hc : Chain h p q) : Inv h q := by
+  induction hc with
+  | refl => exact hinv
+  | step mode _ hs ih => exact key_gen h _ mode ih _ hs
+
+/-! ### route independence -/
+
+/-- the components the key is a function of -/
+def SameCore (p q : Pos) : Prop :=
+  (∀ pt, OnBoard pt → p.board.get pt.row pt.col = q.board.get pt.row pt.col) ∧ p.toMove = q.toMove ∧
+  p.wks = q.wks ∧ p.wqs = q.wqs ∧ p.bks = q.bks ∧ p.bqs = q.bqs ∧
+  p.ep.map (·.col) = q.ep.map (·.col)
+
+theorem scratchKey_core (h : Hasher) (p q : Pos) (hc : SameCore p q) : scratchKey h p = scratchKey h q := by
+  obtain ⟨hb, ht, h1, h2, h3, h4, he⟩ := hc
+  unfold scratchKey
+  have hp : placementKey h p.board = placementKey h q.board := by
+    unfold placementKey
+    apply xorFold_congr
+    intro pt hpt
+    rw [hb pt ((mem_boardCoords pt).mp hpt)]
+  have hep : epKey h p.ep = epKey h q.ep := by
+    unfold epKey
+    cases hpe : p.ep <;> cases hqe : q.ep <;> simp_all
+  rw [hp, ht, h1, h2, h3, h4, hep]
+
+/-- two positions with the same placement, side, rights and en passant file, each produced by any
+    key-exact route, have the same key -/
+theorem route_independent (h : Hasher) (p q : Pos) (hp : KeyOK h p) (hq : KeyOK h q) (hc : SameCore p q) :
+    p.key = q.key := by
+  unfold KeyOK at hp hq
+  rw [hp, hq, scratchKey_core h p q hc]
+
+/-- in particular: any two chains of generated successors (any transposed move orders) from
+    key-exact starts that end in the same position end with the same key -/
+theorem route_independent_chains_partial (h : Hasher) (a b p q : Pos) (ha : Inv h a) (hb : Inv h b)
+    (hcp : Chain h a p) (hcq : Chain h b q) (hc : SameCore p q) : p.key = q.key :=
+  route_independent h p q (key_chain h a p ha hcp).key (key_chain h b q hb hcq).key hc
+
+/-! ### non-vacuity: the start position (loaded by the model's FEN reader, real hasher constants)
+    satisfies the invariant, so the theorems above apply to every game from the start position -/
+
+def startPosition : Pos :=
+  match fromFen Hasher.real Gen.defaultFen.toList with
+  | .ok p => p
+  | _ => default
+
+theorem start_ring : RingOK startPosition.board := by
+  intro r c hne
+  by_cases hb : r < 12 ∧ c < 12
+  · have key : ∀ r : Fin 12, ∀ c : Fin 12, startPosition.board.get r.val c.val ≠ .boundary →
+        (2 ≤ r.val ∧ r.val ≤ 9 ∧ 2 ≤ c.val ∧ c.val ≤ 9) := by decide +kernel
+    exact key ⟨r, hb.1⟩ ⟨c, hb.2⟩ hne
+  · exfalso; apply hne; unfold Board.get; rw [dif_neg hb]
+
+theorem start_inv : Inv Hasher.real startPosition := by
+  refine ⟨start_ring, ?_, ?_⟩
+  · intro t ht
+    have : startPosition.ep = none := by decide +kernel
+    rw [this] at ht; cases ht
+  · unfold KeyOK; decide +kernel
+
 end Walleye
